@@ -603,6 +603,10 @@ def g_PolarGradient(rng):
                 for flags in _flag_subsets(["angular", "radial"]):
                     for cdiff in (False, True):
                         out.append({"shape": shape, "axes": axes, "center": center, **flags, "cdiff": cdiff, "dtype": "float64"})
+    # centres that are not multiples of 1/2: a float-valued coordinate range can have one sample too many (rounding)
+    out.append({"shape": [6, 6], "axes": None, "center": [-2.21, 0.556], "angular": True, "radial": True, "cdiff": False, "dtype": "float64", "must": True})
+    out.append({"shape": [1, 4], "axes": None, "center": [-1.764, 1.017], "angular": False, "radial": True, "cdiff": False, "dtype": "float64", "must": True})
+    out.append({"shape": [3, 5], "axes": [1, 0], "center": [0.3, 1.7], "angular": True, "radial": True, "cdiff": True, "dtype": "float64"})
     return out
 
 
@@ -614,6 +618,8 @@ def g_CylindricalGradient(rng):
                 for flags in _flag_subsets(["angular", "radial", "axial"]):
                     for cdiff in (False, True):
                         out.append({"shape": shape, "axes": axes, "center": center, **flags, "cdiff": cdiff, "dtype": "float64"})
+    out.append({"shape": [6, 2, 2], "axes": None, "center": [-2.21, 0.556, 0.0], "angular": True, "radial": True, "axial": True, "cdiff": False, "dtype": "float64"})
+    out.append({"shape": [2, 3, 2], "axes": [2, 0, 1], "center": [0.3, 1.7, 0.45], "angular": True, "radial": True, "axial": False, "cdiff": False, "dtype": "float64"})
     return out
 
 
@@ -625,6 +631,8 @@ def g_SphericalGradient(rng):
                 for flags in _flag_subsets(["azimuthal", "polar", "radial"]):
                     for cdiff in (False, True):
                         out.append({"shape": shape, "axes": axes, "center": center, **flags, "cdiff": cdiff, "dtype": "float64"})
+    out.append({"shape": [3, 2, 3], "axes": [2, 1, 0], "center": [2.612, -1.062, -1.258], "azimuthal": True, "polar": False, "radial": True, "cdiff": True, "dtype": "float64"})
+    out.append({"shape": [2, 3, 2], "axes": None, "center": [0.3, 1.7, 0.45], "azimuthal": True, "polar": True, "radial": True, "cdiff": False, "dtype": "float64"})
     return out
 
 
@@ -1037,6 +1045,19 @@ def random_configs(rng, n_per_class=12):
             "route": "init", "shape": bx + dims, "h": enc(_dy(rng, bh + ks, cplx=hc)), "ndims": nd if (bx or bh) else None, "h_center": cen,
             "dtype": "complex128" if rng.random() < 0.2 else "float64", "h_is_dft": False,
         }
+    for _ in range(n_per_class):
+        sh2 = [int(rng.integers(1, 7)) for _ in range(int(rng.integers(2, 4)))]
+        ax2 = None if rng.random() < 0.4 else [int(a) for a in rng.permutation(len(sh2))[:2]]
+        cd = bool(rng.random() < 0.5) and all(sh2[a] >= 2 for a in ([0, 1] if ax2 is None else ax2))
+        fl = [(True, True), (True, False), (False, True)][int(rng.integers(0, 3))]
+        yield "PolarGradient", {"shape": sh2, "axes": ax2, "center": None if rng.random() < 0.3 else [round(float(rng.uniform(-3, 6)), 3) for _ in range(2)],
+                                "angular": fl[0], "radial": fl[1], "cdiff": cd, "dtype": "float64"}
+        sh3 = [int(rng.integers(1, 5)) for _ in range(3)]
+        ax3 = None if rng.random() < 0.5 else [int(a) for a in rng.permutation(3)]
+        cd3 = bool(rng.random() < 0.5) and all(v >= 2 for v in sh3)
+        cen3 = None if rng.random() < 0.3 else [round(float(rng.uniform(-2, 4)), 3) for _ in range(3)]
+        yield "CylindricalGradient", {"shape": sh3, "axes": ax3, "center": cen3, "angular": True, "radial": True, "axial": bool(rng.random() < 0.5), "cdiff": cd3, "dtype": "float64"}
+        yield "SphericalGradient", {"shape": sh3, "axes": ax3, "center": cen3, "azimuthal": True, "polar": bool(rng.random() < 0.7), "radial": True, "cdiff": cd3, "dtype": "float64"}
     for _ in range(n_per_class):
         nd = int(rng.integers(1, 3))
         shape = [int(rng.integers(1, 5)) for _ in range(nd)]
